@@ -239,6 +239,17 @@ fn ser_source(words: &[&str]) -> Option<Source> {
         ["rtl", "-"] => Some(Source { address: Address::Rtlsdr(None), name: None, reference: None, altitude: None }),
         ["rtl", s] => toml_source("rtlsdr", toml::Value::String(dec(s)?)),
         ["long", h, p] => tcp_long(&dec(h)?, p.parse().ok()?),
+        // `[[sources]] sero = { token = … }` (configuration file only: no string form); the filters ride along
+        ["sero", tok] => {
+            let tok = dec(tok)?;
+            let mut a = toml::Table::new();
+            a.insert("token".into(), toml::Value::String(tok.clone()));
+            if tok.len() % 2 == 1 {
+                a.insert("df_filter".into(), toml::Value::Array(vec![toml::Value::Integer(17), toml::Value::Integer(20)]));
+                a.insert("jump".into(), toml::Value::String(format!("{tok}.example:443")));
+            }
+            toml_source("sero", toml::Value::Table(a))
+        }
         _ => None,
     }
 }
@@ -791,7 +802,15 @@ pub fn run(out: &mut Out, rng: &mut Rng, thorough: bool) {
     if guarded(|| Url::parse("tcp://").unwrap()).is_none() {
         out.fail("source-panic", "src x", "Url::parse(\"tcp://\") failed");
     }
-    // 1. fixed list (design-time witnesses and documentation examples), as source and as position
+    // 0b. a Sero Systems source (table form only) has the constant serial, whatever its token and filters
+    for tok in ["", "t", "abcdef0123456789", "tcp://host:1", "\u{e9}\u{20ac}"] {
+        ser_case(out, &["sero", &enc(tok)]);
+    }
+    for _ in 0..20 * k {
+        let n = rng.below(24) as usize;
+        let tok: String = (0..n).map(|_| (b'!' + rng.below(94) as u8) as char).collect();
+        ser_case(out, &["sero", &enc(&tok)]);
+    }
     for s in FIXED {
         src_case(out, s, "fixed");
         pos_case(out, s, "fixed");
